@@ -6,6 +6,7 @@ import (
 	"bytes"
 	"crypto/rand"
 	"encoding/base64"
+	"encoding/json"
 	"fmt"
 	"net/http"
 	"net/url"
@@ -13,6 +14,7 @@ import (
 
 	"github.com/nais/wonderwall/internal/crypto"
 	"github.com/nais/wonderwall/pkg/cookie"
+	"github.com/nais/wonderwall/pkg/session"
 )
 
 // Driver "c09": (i) the real Crypter on plaintexts of sizes 0..1 MiB: every single-bit flip (sampled for large sizes), every truncation,
@@ -147,6 +149,18 @@ func runC09(c *ctx) {
 	vars := []variant{{"own", sessA}, {"truncated", sessA[:len(sessA)/2]}, {"extended", sessA + "AAAA"}, {"notbase64", "!!!" + sessA}, {"empty", ""},
 		{"logincookie-as-session", la.get(cookie.Login).Value}, {"logoutcookie-as-session", lo.get(cookie.Logout).Value},
 		{"otherkey", base64.RawURLEncoding.EncodeToString(func() []byte { x, _ := c2.Encrypt([]byte(`{"id":"` + ta.Key() + `","dek":"AAAA"}`)); return x }())}}
+	// forged tickets, sealed with the deployment key (which the harness owns): A's session id with another / a null / a random data key.
+	// Key separation: the store value opens only under the data key in that user's OWN cookie, however often the genuine ticket was used before.
+	sealTicket := func(id string, dek []byte) string {
+		pt, _ := json.Marshal(map[string]any{"id": id, "dek": dek})
+		ct, _ := s.crypter.Encrypt(pt)
+		return base64.RawURLEncoding.EncodeToString(ct)
+	}
+	rndDek := make([]byte, 32)
+	rand.Read(rndDek)
+	vars = append(vars, variant{"ticket:A-id+B-dek", sealTicket(ta.Key(), tb.EncryptionKey)}, variant{"ticket:A-id+zero-dek", sealTicket(ta.Key(), make([]byte, 32))},
+		variant{"ticket:A-id+random-dek", sealTicket(ta.Key(), rndDek)}, variant{"ticket:B-id+A-dek", sealTicket(tb.Key(), ta.EncryptionKey)},
+		variant{"ticket:unknown-id+A-dek", sealTicket(ta.Key()+"x", ta.EncryptionKey)})
 	nFlip := 40
 	if c.thorough() {
 		nFlip = len(raw) * 8
@@ -160,6 +174,8 @@ func runC09(c *ctx) {
 		m[bit/8] ^= 1 << (bit % 8)
 		vars = append(vars, variant{fmt.Sprintf("bitflip:%d", bit), base64.RawURLEncoding.EncodeToString(m)})
 	}
+	ttlA := s.mr.TTL(ta.Key())
+	var restore func()
 	probe := func(name, ck string, what string) {
 		for _, ep := range []string{"/some/page", "/oauth2/session", "/oauth2/session/refresh", "/oauth2/logout/local"} {
 			if ep == "/oauth2/logout/local" && name == "own" {
@@ -179,10 +195,14 @@ func runC09(c *ctx) {
 					auth = true
 				}
 			}
+			if ep == "/oauth2/logout/local" && restore != nil {
+				restore() // a local logout may have removed the entry: put it back so that the next variant is probed against a live session
+			}
 			c.count("tamper:" + what)
 			c.emit("tamper09", "what", what, "variant", name, "ep", ep, "status", resp.Status, "authenticated", auth, "genuine", name == "own")
 		}
 	}
+	restore = func() { s.mr.Set(ta.Key(), valA); s.mr.SetTTL(ta.Key(), ttlA) }
 	for _, v := range vars {
 		probe(v.name, v.cookie, "cookie")
 	}
@@ -192,8 +212,30 @@ func runC09(c *ctx) {
 		ttl := s.mr.TTL(ta.Key())
 		s.mr.Set(ta.Key(), sv.val)
 		s.mr.SetTTL(ta.Key(), ttl)
+		val := sv.val
+		restore = func() { s.mr.Set(ta.Key(), val); s.mr.SetTTL(ta.Key(), ttlA) }
 		probe("store:"+sv.name, sessA, "store")
 	}
 	s.mr.Set(ta.Key(), valA)
 	_ = url.Values{}
+	// a second login that lands on the SAME external session id (the provider re-issues the sid): the entry is re-created under the data key of
+	// the NEW cookie; the superseded cookie's key must not open it, the new one must (checked with crypters built here from the cookie contents).
+	s.idp.fixedSid = "sid-shared"
+	c1b, c2b := newBrowser(), newBrowser()
+	s.login(c1b, rp, base, "")
+	t1 := s.ticketOf(c1b)
+	s.login(c2b, rp, base, "")
+	t2 := s.ticketOf(c2b)
+	s.idp.fixedSid = ""
+	if t1 != nil && t2 != nil {
+		sameKey := t1.Key() == t2.Key()
+		v, _ := s.mr.Get(t2.Key())
+		_, e1 := (&session.EncryptedData{Ciphertext: []byte(v)}).Decrypt(crypto.NewCrypter(t1.EncryptionKey))
+		_, e2 := (&session.EncryptedData{Ciphertext: []byte(v)}).Decrypt(crypto.NewCrypter(t2.EncryptionKey))
+		c.emit("relogin09", "samekey", sameKey, "samedek", bytes.Equal(t1.EncryptionKey, t2.EncryptionKey), "oldopens", e1 == nil, "newopens", e2 == nil)
+		restore = nil
+		probe("superseded-cookie", c1b.get(cookie.Session).Value, "relogin")
+	} else {
+		c.emit("relogin09", "samekey", false, "samedek", false, "oldopens", false, "newopens", false)
+	}
 }
